@@ -22,6 +22,7 @@ import CaddyModel.C02.Lemmas
 import CaddyModel.C02.Reload
 import CaddyModel.C02.Admin
 import CaddyModel.C02.Key
+import CaddyModel.Gen.Glue
 import CaddyModel.C02.Witness
 
 namespace CaddyModel.C02
@@ -382,6 +383,15 @@ theorem admin_reorder_breaks_it :
     ((run init (exAdminReload.take 6)).bind fun s => run s [.adminClose 0 exM0, .adminReplace 1 (some exM0)]) = none ∧
     ((run init exAdminReload).map fun s => ((s.asocks exM0).gens, (s.asocks exM0).pool, s.admRetired)) = some ([1], 1, []) := by
   decide
+
+/-! ### the consumer of the usage count, tied to the source -/
+
+/-- **usage_key_expression_matches_source.**  `(*App).Stop` contains exactly one `caddy.ListenerUsage`
+    call, with exactly the arguments and enclosing loops that `NetAddr.usageKey` models and that the
+    harness's `key` op evaluates on the real code (`exp[0].Network, exp[0].JoinHostPort(0)` of
+    `na.Expand()`): regenerated from /repo on every run, so a changed or additional call site breaks
+    this obligation instead of silently drifting away from the model. -/
+theorem usage_key_expression_matches_source : Gen.listenerUsageCalls = [usageCallSite] := by decide
 
 /-! ### the order matters -/
 
